@@ -46,6 +46,7 @@ type entry struct {
 type behaviour struct {
 	Cfg struct {
 		NB, NSub, D, V, Cap int
+		MaxPend             int
 		Design              string
 	} `json:"cfg"`
 	Quality []string `json:"quality"`
@@ -376,6 +377,9 @@ func replayOne(bh *behaviour) []finding {
 		pipeline.WithValidateWorkers(bh.Cfg.V),
 		pipeline.WithPrefetchBufferSize(bh.Cfg.Cap),
 		pipeline.WithApplyFunc(applyFn),
+	}
+	if bh.Cfg.MaxPend > 0 {
+		opts = append(opts, pipeline.WithMaxPendingBlocks(bh.Cfg.MaxPend))
 	}
 	if bh.Cfg.V > 0 {
 		opts = append(opts,
